@@ -228,7 +228,8 @@ def verbatimRole (req : Req) (role : Role) : Role :=
     ttl := if ¬ req.noRole ∧ role.ttl > 0 then role.ttl else 0,
     maxTTL := if ¬ req.noRole ∧ role.maxTTL > 0 then role.maxTTL else 0,
     nbd := if ¬ req.noRole ∧ role.nbd > 0 then role.nbd else 0,
-    notBefore := none, notAfter := none, nbb := .other, nab := .unset }
+    -- the named role's not_after_bound stays in force next to its ttl / max_ttl (repair of F108)
+    notBefore := none, notAfter := none, nbb := .other, nab := if req.noRole then .unset else role.nab }
 
 /-! ### generateCreationBundle, names part -/
 
